@@ -32,7 +32,7 @@ def floors(tier):
     return {"evals": 8000 if tier == "quick" else 150000, "distinct": 2000,
             "classes": {"op:POP_JUMP_IF_TRUE": 20, "op:POP_JUMP_IF_FALSE": 500, "op:POP_JUMP_IF_NONE": 20, "op:POP_JUMP_IF_NOT_NONE": 20,
                         "op:FOR_ITER": 200, "branchless-checked": 500, "exception-match": 50, "subset:BRANCH": 300,
-                        "subset:BRANCH+LINE": 300, "subset:BRANCH+LINE+CHECKED": 300, "both-outcomes-in-one-call": 100}}
+                        "subset:BRANCH+LINE": 300, "subset:BRANCH+LINE+CHECKED": 300, "both-outcomes-in-one-call": 100, "same-object-operands": 20}}
 
 
 def plan(tier, seed):
@@ -96,6 +96,21 @@ def d_match(v):
             return "other"
 
 
+def d_self(u, v):
+    r = []
+    if u != v:
+        r.append("ne")
+    if u == v:
+        r.append("eq")
+    if u in [v]:
+        r.append("in")
+    n = 0
+    for e in (u, v):
+        if e == u:
+            n += 1
+    return r, n
+
+
 def nobranch(x):
     return x + 1
 
@@ -116,6 +131,8 @@ def d_gen(n):
 DIRECTED_CALLS = (
     [("d_br", "typed", (a, b, l, o)) for a in (0, 1, 3, 5, 9) for b in (0, 4, 7, 12) for l, o in (([], None), ([1, 3], 0), ([5, 9, 0], "x"))]
     + [("d_match", "typed", (v,)) for v in (0, [1, 2], [2, 1], "s", "", None, 3.5)]
+    + [("d_self", "untyped", (n, n + "=")) for n in ("fnan", "decNaN", "cnan", "int1", "u-full1", "l-nan", "s-abc")]
+    + [("d_self", "untyped", (n, n)) for n in ("fnan", "int1", "u-full1")]
     + [("d_calls", "typed", (x,)) for x in (0, 2)] + [("d_gen", "typed", (n,)) for n in (0, 1, 4)]
 )
 
@@ -203,6 +220,8 @@ def _run_program(ctx, source, filename, modname, calls, describe, materialise):
             n_exec = len({(k, o) for (k, o, j) in branches})
             if any((k, o, True) in branches and (k, o, False) in branches for (k, o, j) in branches):
                 cl.append("both-outcomes-in-one-call")
+            if kind == "untyped" and len(args) == 2 and args[1] == args[0] + "=":
+                cl.append("same-object-operands")
             src_lines = source.splitlines()
             if any("except" in src_lines[twin.jumps[k][o]["line"] - 1] for (k, o, j) in branches if twin.jumps[k][o]["line"]):
                 cl.append("exception-match")
